@@ -9,21 +9,23 @@ Debump.set_dihedral_angle, Residue.rotate_tetrahedral, utilities.dihedral.
     PATCHES.xml variants, plus the PEPTIDE-patched variants that carry the
     N+1 / C-1 pseudo atoms) x the reference atoms the implementation would
     pick for it ("first three available" in get_nearest_bonds order, re-derived
-    here on the independently parsed templates) under a complete availability
-    alphabet (everything present; heavy atoms only; any one of the first three
-    missing; thorough: every 3-subsequence of the first six), plus 4-, 5- and
-    all-neighbour fits.  Tuples that are numerically identical (same ordered
-    coordinates) are executed once and counted for every template they stand
-    for.  Each tuple x rotation lattice x translation list: the structure is
-    R*template+t, the oracle is R*p+t (numpy), the mirror image through the
-    plane of the reference points is recognised explicitly, a fourth
-    out-of-plane probe point pins the handedness even for in-plane atoms, and
-    a further rigid motion of the structure must move the result with it
-    (also for structures that are not exact images: rounded to 3 decimals).
+    here on the independently parsed templates) under an availability
+    alphabet: class A = everything present / heavy atoms only (what the
+    pipeline meets on complete residues), class B = any one of the first three
+    missing, class C = 4, 5 (thorough: all) neighbours, class D (thorough) =
+    every 3-subsequence of the first six.  Tuples that are numerically
+    identical (same ordered coordinates) are executed once and counted for
+    every template they stand for.  Each tuple x rotation lattice x
+    translation list: the structure is R*template+t, the oracle is R*p+t
+    (numpy), the mirror image through the plane of the reference points is
+    recognised explicitly, a fourth out-of-plane probe point pins the
+    handedness even for in-plane atoms, and a further rigid motion of the
+    structure must move the result with it (also for structures that are not
+    exact images: rounded to 3 decimals).
 (b) torsions.  Real Residue objects (X at a chain position of ALA/X/ALA built
     with hydrogens, read with pdb.read_pdb, prepared like
-    Debump.debump_biomolecule does): every template dihedral x every ordered
-    pair (start, target) of the angle lattice through
+    Debump.debump_biomolecule does): every template dihedral x ordered
+    (start, target) pairs of the angle lattice through
     Debump.set_dihedral_angle; every bonded ordered atom pair x target
     lattice through Residue.rotate_tetrahedral (used the way
     Amino.rebuild_tetrahedral does: rotate by target - measured);
@@ -54,15 +56,16 @@ RULE = (
     "x template dihedral x ordered (start,target) angle pairs); tetra (every "
     "ordered bonded atom pair x target lattice); qchi (lattice axes x scales "
     "x angles, template bond axes).  non-trivial = distinct (template, atom, "
-    "reference list) tuples, (residue, position, dihedral) and (residue, "
-    "position, axis bond) combinations that were executed and measured"
+    "reference list) tuples, (residue, position, pose, dihedral), (residue, "
+    "position, pose, axis bond) and (axis, scale) combinations that were "
+    "executed and measured"
 )
 ASSUMPTIONS = [
     "SO(3), R^3 and the angle circle are explored on lattices (cube "
     "rotations, 13 axes x angle multiples, 4-5 translations up to 9e4 A, "
-    "5 degree angle lattice plus fine values next to 0 and 180): "
-    "'exploration', complete inside the lattice and over the complete "
-    "template domain",
+    "5 degree angle lattice plus fine values next to 0 and 180 and values "
+    "beyond +-180): 'exploration', complete inside the lattice and over the "
+    "complete template domain",
     "non-degenerate = second singular value of the centred reference points "
     ">= 2e-3 A (no tuple of the template domain is below it); the structure "
     "coordinates are the double-precision image R*x+t, i.e. an exact image "
@@ -76,36 +79,46 @@ ASSUMPTIONS = [
     "only what every rigid superposition of two points guarantees is "
     "demanded: the placed atom keeps its template distance to both reference "
     "atoms",
-    "the torsion clause is read for Debump.set_dihedral_angle literally and "
-    "for Residue.rotate_tetrahedral through its caller's idiom (rotate by "
-    "target - utilities.dihedral); 'distances to the axis atoms unchanged' is "
-    "checked for every atom of the residue, and the moved atoms additionally "
-    "have to be one rigid proper rotation (pairwise distances kept, same "
-    "signed rotation angle about the axis)",
+    "the torsion clause is read for Debump.set_dihedral_angle literally (the "
+    "angle the implementation stores is its utilities.dihedral reading of "
+    "the final coordinates; utilities.dihedral is additionally called "
+    "directly on the fine/out-of-range targets, at every "
+    "rotate_tetrahedral step and in the qchichange block) and for "
+    "Residue.rotate_tetrahedral through its caller's idiom (rotate by "
+    "target - utilities.dihedral); 'distances to the axis atoms unchanged' "
+    "is checked for every atom of the residue, and the moved atoms "
+    "additionally have to be one rigid proper rotation (pairwise distances "
+    "kept, same signed rotation angle about the axis)",
     "dihedrals whose atoms are not all in the residue (cached angle None: "
-    "ASH HD1, TYM HH) cannot be set by the implementation and are counted, "
-    "not judged; canonical names that are regex artefacts of the patch "
+    "TYM HH) cannot be set by the implementation and are counted, not "
+    "judged; canonical names that are regex artefacts of the patch "
     "mechanism (NWAT, CWAT ...) keep bonds to absent atoms, those bonds are "
     "ignored",
 ]
 BOUND = {
-    "quick": "fits: all distinct tuples of the 1-deviation availability "
-    "alphabet (all present / heavy only / one of the first three missing / "
-    "4, 5, all neighbours) over 359 templates x (24 cube rotations + 13 axes "
-    "x multiples of 15 deg) x 4 translations (max 9e4 A) + handedness probe "
-    "+ further rigid motion + rounded-structure equivariance; all 2-point "
-    "tetrahedral tuples; torsions: every template dihedral of 30 residue "
-    "states mid-chain, every (start on 15 deg lattice, target on 5 deg "
-    "lattice) pair both ways + fine/out-of-range targets, chain-end "
-    "positions and one seed-chosen rigid pose on a 60 deg start lattice; "
-    "rotate_tetrahedral: every ordered bonded pair x 72 targets; qchichange: "
-    "26 lattice axes x 4 scales x 5 deg multiples in [-360,720] + fine, and "
-    "all template bond axes of the base templates",
-    "thorough": "quick with angle multiples of 5 deg for the fits, a fifth "
-    "translation (PDB maximum 9999.999), every 3-subsequence of the first "
-    "six neighbours on the 15 deg lattice, every ordered (start,target) pair "
-    "of the 5 deg lattice for the torsions at all three chain positions and "
-    "three rigid poses",
+    "quick": "fits: class A (526 distinct tuples) x (24 cube rotations + 13 "
+    "axes x multiples of 15 deg) x 4 translations (max 9e4 A), handedness "
+    "probe / further rigid motion / rounded-structure motion on the 30 deg "
+    "sub-lattice; classes B and C (4- and 5-point) x (cube + 13 axes x "
+    "multiples of 60 deg) with the translations cycled, probe on the cube "
+    "rotations; all 2-point tetrahedral tuples x 30 deg lattice x 4 "
+    "translations; torsions: every template dihedral of 30 residue states "
+    "mid-chain x (12 starts on the 30 deg lattice x 72 targets, both ways) "
+    "+ 49 fine/out-of-range targets; chain ends and one seed-chosen rigid "
+    "pose with starts {0,180}; rotate_tetrahedral: every ordered bonded pair "
+    "x 36 targets; qchichange: 26 lattice axes x 4 scales x multiples of 5 "
+    "deg in [-360,720] (15 deg for scaled axes) + fine, template bond axes "
+    "of the 26 base templates x 15 deg lattice",
+    "thorough": "fits: class A x (cube + 13 axes x multiples of 5 deg) x 5 "
+    "translations (adds the PDB maximum 9999.999) with probe, further motion "
+    "and rounded-structure motion; class B x 15 deg lattice x 5 translations "
+    "likewise; class C (4, 5, all neighbours) x 30 deg lattice x 5 "
+    "translations + probe; class D (every 3-subsequence of the first six "
+    "neighbours) x 30 deg lattice, translations cycled; torsions: every "
+    "ordered (start,target) pair of the 5 deg lattice mid-chain, 15 deg "
+    "start lattice at the chain ends, three further rigid poses; "
+    "rotate_tetrahedral x 84 targets x 3 positions x 4 poses; qchichange "
+    "bond axes of all 194 canonical templates x 5 deg lattice",
 }
 
 TOL_FIT = 1e-6
@@ -174,13 +187,40 @@ def rotation_lattice(step):
     return _LATTICES[step]
 
 
+# How much of the lattice each class of tuples gets.
+#   step    : angle step of the axis rotations
+#   product : every rotation with every translation (else translations cycle)
+#   probe / moved : "all" | "sub30" (cube + multiples of 30) | "cube" | "none"
+#   rounded : equivariance on 3-decimal structures (30 deg sub-lattice)
+PLANS = {
+    "full15": dict(step=15, product=True, probe="sub30", moved="sub30",
+                   rounded=True),
+    "lite60": dict(step=60, product=False, probe="cube", moved="none",
+                   rounded=False),
+    "full5": dict(step=5, product=True, probe="all", moved="all",
+                  rounded=True),
+    "prod30": dict(step=30, product=True, probe="all", moved="none",
+                   rounded=False),
+    "lite30": dict(step=30, product=False, probe="cube", moved="none",
+                   rounded=False),
+}
+
+
+def _selected(spec, which, explicit):
+    if explicit or which == "all":
+        return True
+    if which == "none":
+        return False
+    if spec[0] == "cube":
+        return True
+    return which == "sub30" and spec[2] % 30 == 0
+
+
 # further rigid motions for "the result moves with the structure"
 _EQ_GENERIC = [([1, 2, 3], 37.0), ([-2, 1, 3], 101.0), ([3, -1, 2], 163.0),
                ([1, -3, -2], 251.0), ([2, 3, -1], 319.0)]
 _EQ_TRANS = [[0.0, 0.0, 0.0], [-3.0, 5.0, 7.0], [250.0, -125.0, 60.0],
              [-4e4, 3e4, 2e4]]
-
-
 _FURTHER = {}
 
 
@@ -208,8 +248,10 @@ def tlabel(t):
 
 
 def decade(err):
-    if err <= 0:
+    if not err > 0:
         return "exact"
+    if not math.isfinite(err):
+        return "inf"
     return f"1e{int(math.ceil(math.log10(err)))}"
 
 
@@ -260,34 +302,24 @@ def nearest_bonds(res, atomname):
     return [b for b in out if b in atoms]
 
 
-def reference_lists(nb, tier_deep):
-    """Availability alphabet -> ordered reference name lists."""
-    out = []
-    seen = set()
-
-    def add(names):
-        names = tuple(names)
-        if len(names) >= 3 and names not in seen:
-            seen.add(names)
-            out.append(names)
-
+def reference_lists(nb, deep):
+    """Availability alphabet -> [(class, ordered reference names)]."""
     heavy = [b for b in nb if not b.startswith("H")]
+    out = []
     for lst in (nb, heavy):
-        add(lst[:3])
+        out.append(("A", lst[:3]))
     for lst in (nb, heavy):
         for k in range(3):
-            add((lst[:k] + lst[k + 1:])[:3])
+            out.append(("B", (lst[:k] + lst[k + 1:])[:3]))
     for lst in (nb, heavy):
-        add(lst[:4])
-        add(lst[:5])
-        add(lst)
-    deep = []
-    if tier_deep:
+        out.append(("C", lst[:4]))
+        out.append(("C", lst[:5]))
+    if deep:
         for tri in itertools.combinations(nb[:6], 3):
-            if tri not in seen:
-                seen.add(tri)
-                deep.append(tri)
-    return out, deep
+            out.append(("D", list(tri)))
+        for lst in (nb, heavy):
+            out.append(("E", lst))
+    return [(c, r) for c, r in out if len(r) >= 3]
 
 
 def sigma2(P):
@@ -297,27 +329,28 @@ def sigma2(P):
 
 
 def fit_tuples(deep):
-    """Distinct numeric tuples, owner = first template that generates it.
-    Returns (base, extra): OrderedDict key -> [res, atom, refs, n_alias]."""
-    base = OrderedDict()
-    extra = OrderedDict()
+    """Distinct numeric tuples; owner = first (class, template, atom) that
+    generates it.  OrderedDict key -> [class, res, atom, refs, n_alias]."""
+    found = OrderedDict()
     for rn, res in domain().items():
         xyz = {n: a.xyz for n, a in res.atoms.items()}
         for an in res.atoms:
             if an in PSEUDO:
                 continue
-            nb = nearest_bonds(res, an)
-            lists, deeper = reference_lists(nb, deep)
             p = xyz[an]
-            for store, group in ((base, lists), (extra, deeper)):
-                for refs in group:
-                    key = (p, tuple(xyz[r] for r in refs))
-                    hit = base.get(key) or store.get(key)
-                    if hit is None:
-                        store[key] = [rn, an, list(refs), 1]
-                    else:
-                        hit[3] += 1
-    return base, extra
+            local = set()
+            for cls, refs in reference_lists(nearest_bonds(res, an), deep):
+                key = (p, tuple(xyz[r] for r in refs))
+                hit = found.get(key)
+                if hit is None:
+                    found[key] = [cls, rn, an, list(refs), 1]
+                    local.add(key)
+                elif key not in local:
+                    local.add(key)
+                    hit[4] += 1
+                    if cls < hit[0]:
+                        hit[0] = cls
+    return found
 
 
 def tetra_tuples():
@@ -353,46 +386,53 @@ def tetra_tuples():
 # ---------------------------------------------------------------------------
 # (a) fits
 # ---------------------------------------------------------------------------
-def _reflect(points, plane_pts):
-    """Mirror image of `points` through the plane of three points."""
+def _reflect(point, plane_pts):
+    """Mirror image of a point through the plane of three points."""
     a, b, c = (np.asarray(v, float) for v in plane_pts[:3])
     n = np.cross(b - a, c - a)
     n = n / np.linalg.norm(n)
-    pts = np.asarray(points, float)
-    return pts - 2.0 * np.outer((pts - a) @ n, n).reshape(pts.shape)
+    pt = np.asarray(point, float)
+    return pt - 2.0 * float((pt - a) @ n) * n
 
 
-def _rots_for(case):
+def _planar(P):
+    """All reference points in one plane: the mirror image through it is a
+    well-defined alternative (improper) superposition."""
+    P = np.asarray(P, float)
+    s = np.linalg.svd(P - P.mean(0), compute_uv=False)
+    return bool(len(s) < 3 or s[2] < 1e-6)
+
+
+def _rots_for(case, step):
     if "rots" in case:
         specs = [list(s) for s in case["rots"]]
         return specs, np.array([rot_matrix(s) for s in specs])
-    return rotation_lattice(int(case.get("step", 15)))
-
-
-def _min_case(case, **kw):
-    c = {k: v for k, v in case.items() if k in ("mode", "res", "atom")}
-    c.update(kw)
-    return c
+    return rotation_lattice(step)
 
 
 def run_fit(case):
     from pdb2pqr import quatfit
 
     fc = quatfit.find_coordinates
+    plan = PLANS[case.get("plan", "full15")]
+    explicit = "rots" in case
     res = domain()[case["res"]]
     atom = case["atom"]
     p = np.array(res.atoms[atom].xyz, float)
-    specs, Rm = _rots_for(case)
+    specs, Rm = _rots_for(case, plan["step"])
     trans = [list(map(float, t)) for t in case.get("trans", TRANSLATIONS)]
     tarr = np.array(trans)
     labels = [tlabel(t) for t in trans]
-    only = case.get("only")  # restrict replay to one sub-check
+    only = case.get("only")  # restrict a replay to one sub-check
+    off = int(case.get("eq_offset", 0))
     out = {"evals": 0, "violations": [], "events": {}, "nontrivial": []}
     ev = out["events"]
     seen = set()
+    nR, nT = len(specs), len(trans)
 
     def bump(k, n=1):
-        ev[k] = ev.get(k, 0) + n
+        if n:
+            ev[k] = ev.get(k, 0) + n
 
     def violate(sig, detail, mini):
         if sig in seen:
@@ -400,13 +440,11 @@ def run_fit(case):
         seen.add(sig)
         out["violations"].append({"sig": sig, "detail": detail, "case": mini})
 
-    nR = len(specs)
-    i_eq = 1 if len(trans) > 1 else 0
+    i_eq = 1 if nT > 1 else 0
     for refs in case["refsets"]:
         n = len(refs)
         P = np.array([res.atoms[r].xyz for r in refs], float)
-        s2 = sigma2(P)
-        if s2 < DEGENERATE_SIGMA2:
+        if sigma2(P) < DEGENERATE_SIGMA2:
             bump("fit:skipped-degenerate-reference-points")
             continue
         out["nontrivial"].append(f"fit:{case['res']}:{atom}:{','.join(refs)}")
@@ -419,91 +457,89 @@ def run_fit(case):
             k3 += 1
             nrm = np.cross(P[1] - P[0], P[k3] - P[0])
         nrm = nrm / np.linalg.norm(nrm)
-        planar = n == 3 or s2_planar(P)
+        planar = _planar(P)
+        if abs(float((p - P[0]) @ nrm)) < 0.05:
+            bump("fit:placed-atom-in-reference-plane"
+                 "(handedness-only-via-probe)")
         # structure = R * template + t ; oracle = R * p + t
         RP = np.einsum("rij,nj->rni", Rm, P)
         S = RP[:, None, :, :] + tarr[None, :, None, :]
         E = (Rm @ p)[:, None, :] + tarr[None, :, :]
         Sl = S.tolist()
-        base = _min_case(case, refsets=[list(refs)])
+        base = {"mode": "fit", "res": case["res"], "atom": atom,
+                "plan": case.get("plan", "full15"), "refsets": [list(refs)]}
+        got_img = {}
         # ---- 1. exact image ------------------------------------------------
         if only in (None, "image"):
-            res_o = np.empty_like(E)
-            failed = None
-            for r in range(nR):
-                row = Sl[r]
-                for t in range(len(trans)):
-                    try:
-                        res_o[r, t] = fc(n, row[t], Pl, pl)
-                    except Exception as exc:  # noqa: BLE001
-                        failed = (r, t, exc)
-                        res_o[r, t] = np.nan
-                    out["evals"] += 1
-            if failed is not None:
-                r, t, exc = failed
-                violate(f"C15/fit/raised:{type(exc).__name__}",
-                        {"error": str(exc)[:200], "rot": specs[r],
-                         "trans": trans[t], "refs": list(refs)},
-                        dict(base, rots=[specs[r]], trans=[trans[t]],
-                             only="image"))
-            err = np.linalg.norm(res_o - E, axis=-1)
-            err = np.where(np.isnan(err), np.inf, err)
-            # height of the placed atom above the reference plane (n == 3)
-            for t in range(len(trans)):
-                col = err[:, t]
-                bump(f"fit:n={min(n, 6)}{'+' if n > 6 else ''}:t={labels[t]}:"
-                     f"worst-error<={decade(float(col.max()))}")
-                bad = np.nonzero(col > TOL_FIT)[0]
-                if len(bad) == 0:
-                    bump(f"fit:ok:t={labels[t]}", nR)
-                    continue
-                bump(f"fit:ok:t={labels[t]}", nR - len(bad))
-                for r in bad[:50]:
-                    got = res_o[r, t]
-                    kind = "error>1e-6"
-                    if planar:
-                        Srt = S[r, t]
-                        mir = _reflect(E[r, t], [Srt[0], Srt[1], Srt[k3]])
-                        off_plane = np.linalg.norm(mir - E[r, t]) / 2.0
-                        if (off_plane > TOL_FIT
-                                and np.linalg.norm(got - mir) <= TOL_FIT):
-                            kind = "mirror-image"
-                    sig = (f"C15/fit/mirror-image" if kind == "mirror-image"
-                           else f"C15/fit/error>1e-6/translation={labels[t]}")
-                    violate(sig,
-                            {"template": case["res"], "atom": atom,
-                             "refs": list(refs), "rot": specs[r],
-                             "trans": trans[t], "observed": got.tolist(),
-                             "expected": E[r, t].tolist(),
-                             "error_A": float(col[r])},
+            if plan["product"] or explicit:
+                pairs = [(r, t) for r in range(nR) for t in range(nT)]
+            else:
+                pairs = [(r, (r + off) % nT) for r in range(nR)]
+            res_o = np.full((len(pairs), 3), np.nan)
+            for i, (r, t) in enumerate(pairs):
+                out["evals"] += 1
+                try:
+                    res_o[i] = fc(n, Sl[r][t], Pl, pl)
+                except Exception as exc:  # noqa: BLE001
+                    violate(f"C15/fit/raised:{type(exc).__name__}",
+                            {"error": str(exc)[:200], "rot": specs[r],
+                             "trans": trans[t], "refs": list(refs)},
                             dict(base, rots=[specs[r]], trans=[trans[t]],
                                  only="image"))
-        # ---- 2. handedness probe: a fourth point one A above the plane ----
-        q = P.mean(0) + nrm
-        ql = q.tolist()
-        if abs(float((p - P[0]) @ nrm)) < 0.05:
-            bump("fit:placed-atom-in-reference-plane(handedness-only-via-probe)")
-        if only in (None, "probe"):
-            Eq = (Rm @ q) + tarr[i_eq]
-            got = np.empty_like(Eq)
-            for r in range(nR):
-                try:
-                    got[r] = fc(n, Sl[r][i_eq], Pl, ql)
-                except Exception:  # noqa: BLE001  (reported by block 1)
-                    got[r] = np.nan
-                out["evals"] += 1
-            err = np.linalg.norm(got - Eq, axis=-1)
+            pr = np.array([q[0] for q in pairs])
+            pt = np.array([q[1] for q in pairs])
+            err = np.linalg.norm(res_o - E[pr, pt], axis=-1)
             err = np.where(np.isnan(err), np.inf, err)
-            bad = np.nonzero(err > TOL_FIT)[0]
-            bump("fit:probe-ok", nR - len(bad))
-            for r in bad[:50]:
-                # handedness: signed volume of (S1-S0, S2-S0, probe-S0)
+            for i, (r, t) in enumerate(pairs):
+                got_img[(r, t)] = res_o[i]
+            for t in range(nT):
+                m = pt == t
+                if not m.any():
+                    continue
+                bump(f"fit:n={n if n < 6 else '6+'}:t={labels[t]}:"
+                     f"worst-error<={decade(float(err[m].max()))}")
+                bump(f"fit:ok:t={labels[t]}",
+                     int((err[m] <= TOL_FIT).sum()))
+            for i in np.nonzero(err > TOL_FIT)[0][:40]:
+                r, t = pairs[i]
+                got = res_o[i]
+                sig = f"C15/fit/error>1e-6/translation={labels[t]}"
+                if planar and np.all(np.isfinite(got)):
+                    Srt = S[r, t]
+                    mir = _reflect(E[r, t], [Srt[0], Srt[1], Srt[k3]])
+                    if (np.linalg.norm(mir - E[r, t]) > 2 * TOL_FIT
+                            and np.linalg.norm(got - mir) <= TOL_FIT):
+                        sig = "C15/fit/mirror-image"
+                violate(sig,
+                        {"template": case["res"], "atom": atom,
+                         "refs": list(refs), "rot": specs[r],
+                         "trans": trans[t], "observed": got.tolist(),
+                         "expected": E[r, t].tolist(),
+                         "error_A": float(err[i])},
+                        dict(base, rots=[specs[r]], trans=[trans[t]],
+                             only="image"))
+        # ---- 2. handedness probe: a fourth point one A above the plane ----
+        if only in (None, "probe"):
+            q = P.mean(0) + nrm
+            ql = q.tolist()
+            rs = [r for r in range(nR)
+                  if _selected(specs[r], plan["probe"], explicit)]
+            for r in rs:
+                out["evals"] += 1
+                try:
+                    got = np.array(fc(n, Sl[r][i_eq], Pl, ql))
+                except Exception:  # noqa: BLE001  (reported by block 1)
+                    continue
+                want = Rm[r] @ q + tarr[i_eq]
+                e = float(np.linalg.norm(got - want))
+                if e <= TOL_FIT:
+                    bump("fit:probe-ok")
+                    continue
                 Sr = S[r, i_eq]
                 vol = float(np.cross(Sr[1] - Sr[0], Sr[k3] - Sr[0])
-                            @ (got[r] - Sr[0])) if np.all(
-                                np.isfinite(got[r])) else 0.0
-                mir = _reflect(Eq[r], [Sr[0], Sr[1], Sr[k3]])
-                if vol < 0 and np.linalg.norm(got[r] - mir) <= 1e-3:
+                            @ (got - Sr[0]))
+                mir = _reflect(want, [Sr[0], Sr[1], Sr[k3]])
+                if vol < 0 and np.linalg.norm(got - mir) <= 1e-3:
                     sig = "C15/fit/mirror-image"
                 else:
                     sig = ("C15/fit/error>1e-6/probe-point/translation="
@@ -512,97 +548,82 @@ def run_fit(case):
                         {"template": case["res"], "atom": atom,
                          "refs": list(refs), "rot": specs[r],
                          "trans": trans[i_eq], "probe": ql,
-                         "observed": got[r].tolist(),
-                         "expected": Eq[r].tolist(),
-                         "error_A": float(err[r]), "signed_volume": vol},
+                         "observed": got.tolist(), "expected": want.tolist(),
+                         "error_A": e, "signed_volume": vol},
                         dict(base, rots=[specs[r]], trans=[trans[i_eq]],
                              only="probe"))
         # ---- 3. a further rigid motion moves the result with it -----------
         if only in (None, "moved"):
             for r in range(nR):
-                spec2, R2, t2a = further_motion(r + case.get("eq_offset", 0))
-                t2 = t2a.tolist()
-                S1 = S[r, i_eq]
-                S2 = S1 @ R2.T + t2a
+                if not _selected(specs[r], plan["moved"], explicit):
+                    continue
+                spec2, R2, t2a = further_motion(r + off)
+                S2 = S[r, i_eq] @ R2.T + t2a
                 try:
-                    o1 = np.array(fc(n, Sl[r][i_eq], Pl, pl))
+                    o1 = got_img.get((r, i_eq))
+                    if o1 is None or not np.all(np.isfinite(o1)):
+                        out["evals"] += 1
+                        o1 = np.array(fc(n, Sl[r][i_eq], Pl, pl))
+                    out["evals"] += 1
                     o2 = np.array(fc(n, S2.tolist(), Pl, pl))
                 except Exception:  # noqa: BLE001  (reported by block 1)
-                    out["evals"] += 2
                     continue
-                out["evals"] += 2
                 d_move = float(np.linalg.norm(o2 - (R2 @ o1 + t2a)))
                 d_img = float(np.linalg.norm(o2 - (R2 @ E[r, i_eq] + t2a)))
-                if d_move > TOL_EQUIV or d_img > TOL_FIT:
-                    sig = ("C15/fit/does-not-move-with-structure"
-                           if d_move > TOL_EQUIV else
-                           "C15/fit/error>1e-6/translation="
-                           + tlabel(R2 @ tarr[i_eq] + t2a))
-                    violate(sig,
-                            {"template": case["res"], "atom": atom,
-                             "refs": list(refs), "rot": specs[r],
-                             "trans": trans[i_eq], "further_rot": spec2,
-                             "further_trans": t2, "moved_error_A": d_move,
-                             "image_error_A": d_img},
-                            dict(base, rots=[specs[r]], trans=[trans[i_eq]],
-                                 only="moved",
-                                 eq_offset=r + case.get("eq_offset", 0)))
-                else:
+                if d_move <= TOL_EQUIV and d_img <= TOL_FIT:
                     bump("fit:moves-with-structure-ok")
+                    continue
+                sig = ("C15/fit/does-not-move-with-structure"
+                       if d_move > TOL_EQUIV else
+                       "C15/fit/error>1e-6/translation="
+                       + tlabel(R2 @ tarr[i_eq] + t2a))
+                violate(sig,
+                        {"template": case["res"], "atom": atom,
+                         "refs": list(refs), "rot": specs[r],
+                         "trans": trans[i_eq], "further_rot": spec2,
+                         "further_trans": t2a.tolist(),
+                         "moved_error_A": d_move, "image_error_A": d_img},
+                        dict(base, rots=[specs[r]], trans=[trans[i_eq]],
+                             only="moved", eq_offset=r + off))
         # ---- 4. same for structures that are not exact images -------------
-        if only in (None, "rounded"):
+        if only in (None, "rounded") and plan["rounded"]:
             n_c = len(build.CUBE_ROTATIONS)
+            t2a = np.array([10.0, -20.0, 30.0])
             for r in range(nR):
                 sp = specs[r]
-                if "rots" not in case and not (
-                        sp[0] == "axis" and sp[2] % 30 == 0):
+                if not explicit and not (sp[0] == "axis" and sp[2] % 30 == 0):
                     continue
                 Sd = np.round(S[r, i_eq], 3)
                 if np.array_equal(Sd, S[r, i_eq]):
                     continue
-                k2 = (r + case.get("eq_offset", 0)) % n_c
+                k2 = (r + off) % n_c
                 R2 = np.array(build.CUBE_ROTATIONS[k2], float)
-                t2a = np.array([10.0, -20.0, 30.0])
                 S2 = Sd @ R2.T + t2a
+                mini = dict(base, rots=[sp], trans=[trans[i_eq]],
+                            only="rounded", eq_offset=r + off)
+                out["evals"] += 2
                 try:
                     o1 = np.array(fc(n, Sd.tolist(), Pl, pl))
                     o2 = np.array(fc(n, S2.tolist(), Pl, pl))
                 except Exception as exc:  # noqa: BLE001
-                    out["evals"] += 2
                     violate(f"C15/fit/raised:{type(exc).__name__}",
                             {"error": str(exc)[:200], "rot": sp,
-                             "rounded": True, "refs": list(refs)},
-                            dict(base, rots=[sp], trans=[trans[i_eq]],
-                                 only="rounded",
-                                 eq_offset=r + case.get("eq_offset", 0)))
+                             "rounded": True, "refs": list(refs)}, mini)
                     continue
-                out["evals"] += 2
                 d_move = float(np.linalg.norm(o2 - (R2 @ o1 + t2a)))
-                # sanity of the fit itself (not judged: not an exact image)
-                if d_move > TOL_EQUIV:
-                    violate("C15/fit/does-not-move-with-structure/"
-                            "rounded-structure",
-                            {"template": case["res"], "atom": atom,
-                             "refs": list(refs), "rot": sp,
-                             "trans": trans[i_eq], "further_rot": ["cube", k2],
-                             "further_trans": t2a.tolist(),
-                             "moved_error_A": d_move},
-                            dict(base, rots=[sp], trans=[trans[i_eq]],
-                                 only="rounded",
-                                 eq_offset=r + case.get("eq_offset", 0)))
-                else:
+                if d_move <= TOL_EQUIV:
                     bump("fit:rounded-structure-moves-ok")
+                    continue
+                violate("C15/fit/does-not-move-with-structure/"
+                        "rounded-structure",
+                        {"template": case["res"], "atom": atom,
+                         "refs": list(refs), "rot": sp, "trans": trans[i_eq],
+                         "further_rot": ["cube", k2],
+                         "further_trans": t2a.tolist(),
+                         "moved_error_A": d_move}, mini)
     if case.get("aliases"):
         bump("fit:template-tuples-represented", int(case["aliases"]))
     return out
-
-
-def s2_planar(P):
-    """True when all reference points lie in one plane (mirror image through
-    that plane is then a well-defined alternative superposition)."""
-    P = np.asarray(P, float)
-    s = np.linalg.svd(P - P.mean(0), compute_uv=False)
-    return bool(s[2] < 1e-6)
 
 
 def run_fit2(case):
@@ -612,12 +633,19 @@ def run_fit2(case):
 
     fc = quatfit.find_coordinates
     res = domain()[case["res"]]
-    specs, Rm = _rots_for(case)
+    specs, Rm = _rots_for(case, int(case.get("step", 30)))
     trans = [list(map(float, t)) for t in case.get("trans", TRANSLATIONS)]
     tarr = np.array(trans)
     out = {"evals": 0, "violations": [], "events": {}, "nontrivial": []}
     ev = out["events"]
     seen = set()
+
+    def violate(sig, detail, mini):
+        if sig not in seen:
+            seen.add(sig)
+            out["violations"].append(
+                {"sig": sig, "detail": detail, "case": mini})
+
     for atom, refs in case["tuples"]:
         p = np.array(res.atoms[atom].xyz, float)
         P = np.array([res.atoms[r].xyz for r in refs], float)
@@ -630,43 +658,127 @@ def run_fit2(case):
         for t in range(len(trans)):
             lab = tlabel(trans[t])
             worst = 0.0
+            n_ok = 0
             for r in range(len(specs)):
+                mini = {"mode": "fit2", "res": case["res"],
+                        "tuples": [[atom, refs]], "rots": [specs[r]],
+                        "trans": [trans[t]]}
                 out["evals"] += 1
                 try:
                     o = np.array(fc(2, Sl[r][t], Pl, pl))
                 except Exception as exc:  # noqa: BLE001
-                    sig = f"C15/fit2/raised:{type(exc).__name__}"
-                    if sig not in seen:
-                        seen.add(sig)
-                        out["violations"].append({
-                            "sig": sig, "detail": {"error": str(exc)[:200]},
-                            "case": dict(case, tuples=[[atom, refs]],
-                                         rots=[specs[r]], trans=[trans[t]])})
+                    violate(f"C15/fit2/raised:{type(exc).__name__}",
+                            {"error": str(exc)[:200]}, mini)
                     continue
                 got = np.linalg.norm(S[r, t] - o, axis=1)
                 d = float(np.max(np.abs(got - want)))
-                worst = max(worst, d)
-                if d > TOL_DIST:
-                    sig = ("C15/fit2/distance-to-reference-atoms-changed/"
-                           f"translation={lab}")
-                    if sig not in seen:
-                        seen.add(sig)
-                        out["violations"].append({
-                            "sig": sig,
-                            "detail": {"template": case["res"], "atom": atom,
-                                       "refs": refs, "rot": specs[r],
-                                       "trans": trans[t],
-                                       "distances": got.tolist(),
-                                       "template_distances": want.tolist()},
-                            "case": dict(case, tuples=[[atom, refs]],
-                                         rots=[specs[r]], trans=[trans[t]])})
+                if not d <= TOL_DIST:
+                    violate("C15/fit2/distance-to-reference-atoms-changed/"
+                            f"translation={lab}",
+                            {"template": case["res"], "atom": atom,
+                             "refs": refs, "rot": specs[r], "trans": trans[t],
+                             "distances": got.tolist(),
+                             "template_distances": want.tolist()}, mini)
                 else:
-                    ev[f"fit2:ok:t={lab}"] = ev.get(f"fit2:ok:t={lab}", 0) + 1
+                    worst = max(worst, d)
+                    n_ok += 1
+            if n_ok:
+                ev[f"fit2:ok:t={lab}"] = ev.get(f"fit2:ok:t={lab}", 0) + n_ok
             k = f"fit2:t={lab}:worst-distance-change<={decade(worst)}"
             ev[k] = ev.get(k, 0) + 1
     if case.get("aliases"):
         ev["fit2:template-tuples-represented"] = int(case["aliases"])
     return out
+
+
+# ---------------------------------------------------------------------------
+# shared oracle for rotations about an axis (vectorised over steps)
+# ---------------------------------------------------------------------------
+def wrap(a):
+    return (a + 180.0) % 360.0 - 180.0
+
+
+def dihedral_batch(Q):
+    """Independent dihedral (degrees, IUPAC sign) for Q of shape (m, 4, 3)."""
+    b0 = Q[:, 0] - Q[:, 1]
+    b1 = Q[:, 2] - Q[:, 1]
+    b2 = Q[:, 3] - Q[:, 2]
+    b1 = b1 / np.linalg.norm(b1, axis=1)[:, None]
+    v = b0 - np.einsum("ij,ij->i", b0, b1)[:, None] * b1
+    w = b2 - np.einsum("ij,ij->i", b2, b1)[:, None] * b1
+    x = np.einsum("ij,ij->i", v, w)
+    y = np.einsum("ij,ij->i", np.cross(b1, v), w)
+    return np.degrees(np.arctan2(y, x))
+
+
+def rotation_faults(B, A, ib, ic, deltas=None, iref=None, chunk=256):
+    """B, A: coordinates before / after each step, shape (m, n, 3).  The step
+    is supposed to rotate some atoms about the axis atom ib -> atom ic.
+    Returns OrderedDict kind -> (first failing step, detail)."""
+    faults = OrderedDict()
+    m = B.shape[0]
+
+    def first(kind, bad, detail_fn):
+        idx = np.nonzero(bad)[0]
+        if len(idx) and kind not in faults:
+            i = int(idx[0])
+            faults[kind] = (i, detail_fn(i))
+
+    for i_ax, nm in ((ib, "first"), (ic, "second")):
+        d0 = np.linalg.norm(B - B[:, i_ax:i_ax + 1], axis=2)
+        d1 = np.linalg.norm(A - A[:, i_ax:i_ax + 1], axis=2)
+        dd = np.abs(d1 - d0)
+        dd = np.where(np.isfinite(dd), dd, np.inf)
+        first("axis-distance-changed", dd.max(axis=1) > TOL_DIST,
+              lambda i, dd=dd, d0=d0, d1=d1, nm=nm: {
+                  "axis_atom": nm, "atom_index": int(np.argmax(dd[i])),
+                  "before": float(d0[i, np.argmax(dd[i])]),
+                  "after": float(d1[i, np.argmax(dd[i])])})
+    moved = (A != B).any(axis=2)
+    first("axis-atom-moved", moved[:, ib] | moved[:, ic], lambda i: {})
+    sel = moved.copy()
+    sel[:, ib] = True
+    sel[:, ic] = True
+    for s in range(0, m, chunk):
+        b, a, w = B[s:s + chunk], A[s:s + chunk], sel[s:s + chunk]
+        D0 = np.linalg.norm(b[:, :, None] - b[:, None, :], axis=-1)
+        D1 = np.linalg.norm(a[:, :, None] - a[:, None, :], axis=-1)
+        diff = np.abs(D1 - D0) * (w[:, :, None] & w[:, None, :])
+        diff = np.where(np.isfinite(diff), diff, np.inf)
+        worst = diff.reshape(len(b), -1).max(axis=1)
+        if "not-rigid" not in faults and (worst > TOL_DIST).any():
+            i = int(np.nonzero(worst > TOL_DIST)[0][0])
+            faults["not-rigid"] = (s + i, {"max_pair_distance_change":
+                                           float(worst[i])})
+    u = B[:, ic] - B[:, ib]
+    u = u / np.linalg.norm(u, axis=1)[:, None]
+    v0 = B - B[:, ib:ib + 1]
+    v1 = A - B[:, ib:ib + 1]
+    v0 = v0 - np.einsum("mnj,mj->mn", v0, u)[:, :, None] * u[:, None, :]
+    v1 = v1 - np.einsum("mnj,mj->mn", v1, u)[:, :, None] * u[:, None, :]
+    ang = np.degrees(np.arctan2(
+        np.einsum("mnj,mj->mn", np.cross(v0, v1), u),
+        np.einsum("mnj,mnj->mn", v0, v1)))
+    rad = np.linalg.norm(v0, axis=2)
+    valid = moved & (rad > 0.1)
+    if deltas is not None:
+        offs = np.abs(wrap(ang - np.asarray(deltas, float)[:, None])) * valid
+        first("rotation-angle", offs.max(axis=1) > TOL_ANGLE,
+              lambda i: {"requested_rotation": float(deltas[i]),
+                         "observed_rotation":
+                         float(ang[i, np.argmax(offs[i])])})
+    elif iref is not None:
+        offs = (np.abs(wrap(ang - ang[:, iref:iref + 1])) * valid
+                * valid[:, iref:iref + 1])
+        first("not-rigid", offs.max(axis=1) > TOL_ANGLE,
+              lambda i: {"rotation_of_dihedral_atom": float(ang[i, iref]),
+                         "rotation_of_other_atom":
+                         float(ang[i, np.argmax(offs[i])])})
+    return faults, moved
+
+
+def _snap(atoms):
+    return [[a.x, a.y, a.z] for a in atoms]
 
 
 # ---------------------------------------------------------------------------
@@ -682,10 +794,9 @@ POSES = [
     (["axis", [-2, 1, 3], 101.0], [-9999.999, 9999.999, -9999.999]),
 ]
 LATT5 = [float(a) for a in range(-175, 181, 5)]
-FINE = sorted({s * v for v in (0.01, 0.02, 0.03, 0.04, 0.06, 0.1, 0.5, 1.0,
-                               2.5) for s in (1, -1)}
-              | {s * (180.0 - v) for v in (0.01, 0.02, 0.03, 0.04, 0.06, 0.1,
-                                           0.5, 1.0, 2.5) for s in (1, -1)})
+_FINE_OFFSETS = (0.01, 0.02, 0.03, 0.04, 0.06, 0.1, 0.5, 1.0, 2.5)
+FINE = sorted({s * v for v in _FINE_OFFSETS for s in (1, -1)}
+              | {s * (180.0 - v) for v in _FINE_OFFSETS for s in (1, -1)})
 BEYOND = [185.0, 270.0, 360.0, 365.0, 540.0, 720.0, -180.0, -185.0, -270.0,
           -360.0, -540.0, 1e-9, -1e-9]
 
@@ -733,66 +844,6 @@ def make_residue(x, pos, pose):
     return bm, d, bm.residues[idx]
 
 
-def wrap(a):
-    return (a + 180.0) % 360.0 - 180.0
-
-
-def signed_rotation(before, after, b, c):
-    """Signed rotation angle (degrees, right-handed about b->c) of each point
-    and its distance from the axis."""
-    u = c - b
-    u = u / np.linalg.norm(u)
-    v0 = before - b
-    v1 = after - b
-    v0 = v0 - np.outer(v0 @ u, u)
-    v1 = v1 - np.outer(v1 @ u, u)
-    ang = np.degrees(np.arctan2(np.cross(v0, v1) @ u,
-                                np.einsum("ij,ij->i", v0, v1)))
-    return ang, np.linalg.norm(v0, axis=1)
-
-
-def rotation_faults(before, after, ib, ic, delta):
-    """Generic oracle for 'a set of atoms was rotated about the axis b->c by
-    delta degrees'.  Returns list of (kind, detail)."""
-    faults = []
-    for i_ax, nm in ((ib, "first"), (ic, "second")):
-        d0 = np.linalg.norm(before - before[i_ax], axis=1)
-        d1 = np.linalg.norm(after - after[i_ax], axis=1)
-        dd = np.abs(d1 - d0)
-        k = int(np.argmax(dd))
-        if dd[k] > TOL_DIST:
-            faults.append(("axis-distance-changed",
-                           {"axis_atom": nm, "atom_index": k,
-                            "before": float(d0[k]), "after": float(d1[k])}))
-    moved = np.nonzero(np.max(np.abs(after - before), axis=1) > 0)[0]
-    if ib in moved or ic in moved:
-        faults.append(("axis-atom-moved", {}))
-    if len(moved):
-        idx = list(moved) + [ib, ic]
-        X0, X1 = before[idx], after[idx]
-        D0 = np.linalg.norm(X0[:, None] - X0[None], axis=-1)
-        D1 = np.linalg.norm(X1[:, None] - X1[None], axis=-1)
-        if float(np.max(np.abs(D1 - D0))) > TOL_DIST:
-            faults.append(("not-rigid",
-                           {"max_pair_distance_change":
-                            float(np.max(np.abs(D1 - D0)))}))
-        ang, rad = signed_rotation(before[moved], after[moved],
-                                   before[ib], before[ic])
-        far = rad > 0.1
-        if delta is not None and np.any(far):
-            off = np.abs(wrap(ang[far] - delta))
-            if float(off.max()) > TOL_ANGLE:
-                k = int(np.argmax(off))
-                faults.append(("rotation-angle",
-                               {"requested_rotation": delta,
-                                "observed_rotation": float(ang[far][k])}))
-    return faults, len(moved)
-
-
-def _snap(atoms):
-    return np.array([[a.x, a.y, a.z] for a in atoms])
-
-
 def transitions(start_step):
     """Ordered (start,target) pairs as one walk over the 5 degree lattice:
     every start on the start lattice with every other target, both ways."""
@@ -811,6 +862,13 @@ def transitions(start_step):
             if t != s:
                 walk += [t, s]
     return walk
+
+
+def _angle_bucket(e):
+    for b in (1e-9, 1e-6, 1e-3, 0.01, 0.03, 0.05):
+        if e <= b:
+            return f"{b:g}deg"
+    return ">0.05deg"
 
 
 def run_torsion(case):
@@ -832,84 +890,100 @@ def run_torsion(case):
         return out
     atoms = list(res.atoms)
     index = {a.name: i for i, a in enumerate(atoms)}
-    ia, ib, ic, idd = (index[n] for n in names)
+    quad = [index[n] for n in names]
+    ib, ic, idd = quad[1], quad[2], quad[3]
+    quad_atoms = [atoms[i] for i in quad]
     if "walk" in case:
         walk = [float(a) for a in case["walk"]]
+        direct_from = 0
     else:
-        walk = transitions(case.get("start_step", 15))
-        if case.get("extras", True):
-            for i, tgt in enumerate(FINE + BEYOND):
-                walk += [LATT5[(i * 7) % len(LATT5)], tgt]
-    seen = set()
+        walk = transitions(case.get("start_step", 30))
+        direct_from = len(walk)
+        for i, tgt in enumerate(FINE + BEYOND):
+            walk += [LATT5[(i * 7) % len(LATT5)], tgt]
     out["nontrivial"].append(f"torsion:{x}:{pos}:pose{pose}:{dihedral}")
-    prev = None
-    n_ok = 0
-    worst = 0.0
-    for target in walk:
-        before = _snap(atoms)
-        cached = res.dihedrals[k]
+
+    def mini(i):
+        return {"mode": "torsion", "x": x, "pos": pos, "pose": pose, "k": k,
+                "dihedral": dihedral, "walk": walk[max(0, i - 1):i + 1]}
+
+    snaps = [_snap(atoms)]
+    stored = []
+    direct = {}
+    cached = [res.dihedrals[k]]
+    for i, target in enumerate(walk):
+        out["evals"] += 1
         try:
             deb.set_dihedral_angle(res, k, target)
         except Exception as exc:  # noqa: BLE001
-            sig = f"C15/torsion/raised:{type(exc).__name__}/{tag}"
-            if sig not in seen:
-                seen.add(sig)
-                out["violations"].append({
-                    "sig": sig, "detail": {"error": str(exc)[:200],
-                                           "target": target, "from": prev},
-                    "case": dict(case, walk=[a for a in (prev, target)
-                                             if a is not None])})
-            out["evals"] += 1
-            break
-        out["evals"] += 1
-        after = _snap(atoms)
-        quad = [after[i] for i in (ia, ib, ic, idd)]
-        m_impl = float(util.dihedral(*[list(map(float, v)) for v in quad]))
-        m_ref = build.dihedral(*quad)
-        faults = []
-        e_impl = abs(wrap(m_impl - target))
-        e_ref = abs(wrap(m_ref - target))
-        worst = max(worst, e_impl, e_ref)
-        if e_ref > TOL_ANGLE:
-            faults.append(("angle-mismatch",
-                           {"target": target, "independent_dihedral": m_ref,
-                            "utilities.dihedral": m_impl}))
-        elif e_impl > TOL_ANGLE:
-            faults.append(("angle-mismatch(utilities.dihedral-only)",
-                           {"target": target, "independent_dihedral": m_ref,
-                            "utilities.dihedral": m_impl}))
-        stored = res.dihedrals[k]
-        if stored is None or abs(wrap(stored - target)) > TOL_ANGLE:
-            faults.append(("stored-angle-mismatch",
-                           {"target": target, "stored": stored}))
-        more, n_moved = rotation_faults(before, after, ib, ic, None)
-        faults += more
-        if not faults:
-            n_ok += 1
-        for kind, detail in faults:
-            sig = f"C15/torsion/{kind}/{tag}"
-            if sig in seen:
-                continue
-            seen.add(sig)
-            detail = dict(detail, residue=x, position=pos, pose=pose,
-                          dihedral=dihedral, previous_target=prev,
-                          cached_before=cached)
             out["violations"].append({
-                "sig": sig, "detail": detail,
-                "case": dict(case, extras=False,
-                             walk=[a for a in (prev, target)
-                                   if a is not None])})
-        prev = target
-    ev[f"torsion:ok:{pos}:pose{pose}"] = n_ok
+                "sig": f"C15/torsion/raised:{type(exc).__name__}/{tag}",
+                "detail": {"error": str(exc)[:200], "target": target,
+                           "cached_before": cached[-1]},
+                "case": mini(i)})
+            walk = walk[:i]
+            break
+        snaps.append(_snap(atoms))
+        s = res.dihedrals[k]
+        stored.append(float("nan") if s is None else float(s))
+        cached.append(s)
+        if i >= direct_from:
+            direct[i] = float(util.dihedral(*[a.coords for a in quad_atoms]))
+    if not walk:
+        return out
+    X = np.array(snaps)
+    B, A = X[:-1], X[1:]
+    tg = np.array(walk)
+    m_ref = dihedral_batch(A[:, quad])
+    m_impl = np.array(stored)
+    e_ref = np.abs(wrap(m_ref - tg))
+    e_impl = np.abs(wrap(m_impl - tg))
+    e_impl = np.where(np.isfinite(e_impl), e_impl, np.inf)
+    found = []  # (kind, step, detail)
+
+    def first(kind, bad, detail_fn):
+        idx = np.nonzero(bad)[0]
+        if len(idx):
+            found.append((kind, int(idx[0]), detail_fn(int(idx[0]))))
+
+    first("angle-mismatch", e_ref > TOL_ANGLE,
+          lambda i: {"target": walk[i],
+                     "independent_dihedral": float(m_ref[i]),
+                     "stored_utilities.dihedral": float(m_impl[i])})
+    first("angle-mismatch(utilities.dihedral-only)",
+          (e_ref <= TOL_ANGLE) & (e_impl > TOL_ANGLE),
+          lambda i: {"target": walk[i],
+                     "independent_dihedral": float(m_ref[i]),
+                     "stored_utilities.dihedral": float(m_impl[i])})
+    for i, val in direct.items():
+        if (abs(wrap(val - walk[i])) > TOL_ANGLE
+                and e_ref[i] <= TOL_ANGLE):
+            found.append(("angle-mismatch(utilities.dihedral-only)", i,
+                          {"target": walk[i],
+                           "independent_dihedral": float(m_ref[i]),
+                           "utilities.dihedral": val}))
+            break
+    faults, _moved = rotation_faults(B, A, ib, ic, iref=idd)
+    for kind, (i, detail) in faults.items():
+        found.append((kind, i, detail))
+    seen = set()
+    for kind, i, detail in found:
+        sig = f"C15/torsion/{kind}/{tag}"
+        if sig in seen:
+            continue
+        seen.add(sig)
+        out["violations"].append({
+            "sig": sig,
+            "detail": dict(detail, residue=x, position=pos, pose=pose,
+                           dihedral=dihedral, target=walk[i],
+                           previous_target=walk[i - 1] if i else None,
+                           cached_before=cached[i]),
+            "case": mini(i)})
+    ok = (e_ref <= TOL_ANGLE) & (e_impl <= TOL_ANGLE)
+    ev[f"torsion:ok:{pos}:pose{pose}"] = int(ok.sum()) if not faults else 0
+    worst = float(max(e_ref.max(), e_impl.max()))
     ev[f"torsion:worst-angle-error<={_angle_bucket(worst)}"] = 1
     return out
-
-
-def _angle_bucket(e):
-    for b in (1e-9, 1e-6, 1e-3, 0.01, 0.03, 0.05):
-        if e <= b:
-            return f"{b:g}deg"
-    return ">0.05deg"
 
 
 def run_tetra(case):
@@ -924,7 +998,12 @@ def run_tetra(case):
     atoms = list(bm.atoms)
     index = {id(a): i for i, a in enumerate(atoms)}
     seen = set()
-    targets = [float(a) for a in case.get("targets", LATT5 + FINE[::3])]
+    if "targets" in case:
+        targets = [float(a) for a in case["targets"]]
+    elif case.get("lattice", 15) == 5:
+        targets = LATT5 + FINE[::3]
+    else:
+        targets = [a for a in LATT5 if int(a) % 15 == 0] + FINE[::6]
     pairs = []
     for a1 in res.atoms:
         for a2 in a1.bonds:
@@ -944,17 +1023,26 @@ def run_tetra(case):
                                  f"{a1.name}-{a2.name}")
         usable = False
         if ref is not None:
-            ang_a = build.angle(home[index[id(ref)]], home[i1], home[i2])
-            ang_b = build.angle(home[i1], home[i2], home[index[id(movers[0])]])
+            ang_a = build.angle(ref.coords, a1.coords, a2.coords)
+            ang_b = build.angle(a1.coords, a2.coords, movers[0].coords)
             usable = 5.0 < ang_a < 175.0 and 5.0 < ang_b < 175.0
-        for target in targets:
-            before = _snap(atoms)
-            if usable:
-                measured = float(util.dihedral(ref.coords, a1.coords,
-                                               a2.coords, movers[0].coords))
-                delta = target - measured
-            else:
-                delta = target
+            quad_atoms = [ref, a1, a2, movers[0]]
+            quad = [index[id(a)] for a in quad_atoms]
+
+        def mini(i):
+            return {"mode": "tetra", "x": x, "pos": pos, "pose": pose,
+                    "pair": [a1.name, a2.name], "targets": [targets[i]]}
+
+        snaps = [home]
+        deltas = []
+        measured = []
+        if usable:
+            measured.append(float(util.dihedral(
+                *[a.coords for a in quad_atoms])))
+        done = 0
+        for i, target in enumerate(targets):
+            delta = target - measured[-1] if usable else target
+            out["evals"] += 1
             try:
                 res.rotate_tetrahedral(a1, a2, delta)
             except Exception as exc:  # noqa: BLE001
@@ -963,45 +1051,53 @@ def run_tetra(case):
                     seen.add(sig)
                     out["violations"].append({
                         "sig": sig, "detail": {"error": str(exc)[:200]},
-                        "case": dict(case, pair=[a1.name, a2.name],
-                                     targets=[target])})
-                out["evals"] += 1
+                        "case": mini(i)})
                 break
-            out["evals"] += 1
-            after = _snap(atoms)
-            faults, _n = rotation_faults(before, after, i1, i2, delta)
+            done += 1
+            deltas.append(delta)
+            snaps.append(_snap(atoms))
             if usable:
-                quad = [after[index[id(ref)]], after[i1], after[i2],
-                        after[index[id(movers[0])]]]
-                m_impl = float(util.dihedral(
-                    *[list(map(float, v)) for v in quad]))
-                m_ref = build.dihedral(*quad)
-                if abs(wrap(m_ref - target)) > TOL_ANGLE:
-                    faults.append(("angle-mismatch",
-                                   {"target": target, "rotated_by": delta,
-                                    "independent_dihedral": m_ref,
-                                    "utilities.dihedral": m_impl}))
-                elif abs(wrap(m_impl - target)) > TOL_ANGLE:
-                    faults.append(("angle-mismatch(utilities.dihedral-only)",
-                                   {"target": target, "rotated_by": delta,
-                                    "independent_dihedral": m_ref,
-                                    "utilities.dihedral": m_impl}))
-            if not faults:
-                n_ok += 1
-            for kind, detail in faults:
-                sig = f"C15/tetra/{kind}/{tag}"
-                if sig in seen:
-                    continue
-                seen.add(sig)
-                out["violations"].append({
-                    "sig": sig,
-                    "detail": dict(detail, residue=x, position=pos, pose=pose,
-                                   axis=[a1.name, a2.name],
-                                   moved=[b.name for b in movers]),
-                    "case": dict(case, pair=[a1.name, a2.name],
-                                 targets=[target])})
+                measured.append(float(util.dihedral(
+                    *[a.coords for a in quad_atoms])))
         for a, v in zip(atoms, home):
-            a.x, a.y, a.z = float(v[0]), float(v[1]), float(v[2])
+            a.x, a.y, a.z = v
+        if not done:
+            continue
+        X = np.array(snaps)
+        B, A = X[:-1], X[1:]
+        faults, _moved = rotation_faults(B, A, i1, i2,
+                                         deltas=np.array(deltas))
+        found = [(kind, i, d) for kind, (i, d) in faults.items()]
+        if usable:
+            tg = np.array(targets[:done])
+            m_ref = dihedral_batch(A[:, quad])
+            m_impl = np.array(measured[1:])
+            e_ref = np.abs(wrap(m_ref - tg))
+            e_impl = np.abs(wrap(m_impl - tg))
+            for kind, bad in (
+                    ("angle-mismatch", e_ref > TOL_ANGLE),
+                    ("angle-mismatch(utilities.dihedral-only)",
+                     (e_ref <= TOL_ANGLE) & ~(e_impl <= TOL_ANGLE))):
+                idx = np.nonzero(bad)[0]
+                if len(idx):
+                    i = int(idx[0])
+                    found.append((kind, i, {
+                        "target": targets[i], "rotated_by": deltas[i],
+                        "independent_dihedral": float(m_ref[i]),
+                        "utilities.dihedral": float(m_impl[i])}))
+        if not found:
+            n_ok += done
+        for kind, i, detail in found:
+            sig = f"C15/tetra/{kind}/{tag}"
+            if sig in seen:
+                continue
+            seen.add(sig)
+            out["violations"].append({
+                "sig": sig,
+                "detail": dict(detail, residue=x, position=pos, pose=pose,
+                               axis=[a1.name, a2.name],
+                               moved=[b.name for b in movers]),
+                "case": mini(i)})
     ev[f"tetra:ok:{pos}:pose{pose}"] = n_ok
     return out
 
@@ -1012,70 +1108,103 @@ def run_tetra(case):
 QCHI_SCALES = [1.0, 1.526, 1e-3, 1e4]
 QCHI_ANGLES = ([float(a) for a in range(-360, 725, 5)] + FINE
                + [1e-9, -1e-9, 1e-4, 1080.0, -1080.0, 33.3, -77.7, 123.456])
+QCHI_ANGLES_SCALED = ([float(a) for a in range(-360, 725, 15)]
+                      + [0.01, -179.99, 33.3, -77.7])
 
 
 def _qchi_points():
     pts = [[1.0, 0.0, 0.0], [0.0, 1.0, 0.0], [0.0, 0.0, 1.0]]
     for v in AXES26:
-        for r in (0.5, 1.5, 10.0):
+        for r in (0.5, 10.0):
             u = np.array(v, float)
             pts.append((u / np.linalg.norm(u) * r).tolist())
     pts += [[0.3, -1.1, 2.2], [-4.0, 0.25, 0.5], [0.0, 0.0, 0.0]]
     return pts
 
 
-def _qchi_check(qchichange, axis, pts, angle, util, n_dihedral):
-    """One call; returns (faults, evals)."""
+def _qchi_block(quatfit, util, axis, pts, angles, n_dihedral):
+    """All angles for one axis / point set.  Returns (evals, n_ok, found)
+    with found = [(kind, angle, detail)]."""
     P = np.array(pts, float)
-    got = np.array(qchichange(list(map(float, axis)), P.tolist(), angle))
-    faults = []
-    if got.shape != P.shape or not np.all(np.isfinite(got)):
-        return [("bad-output", {"shape": list(got.shape)})]
-    origin = np.zeros(3)
     tip = np.array(axis, float)
     tip = tip / np.linalg.norm(tip)
-    before = np.vstack([P, origin, tip])
-    after = np.vstack([got, origin, tip])
+    axl = [float(c) for c in axis]
+    Pl = P.tolist()
+    found = []
+    outs = []
+    used = []
+    evals = 0
+    for angle in angles:
+        evals += 1
+        try:
+            got = np.array(quatfit.qchichange(axl, Pl, angle), float)
+        except Exception as exc:  # noqa: BLE001
+            found.append((f"raised:{type(exc).__name__}", angle,
+                          {"error": str(exc)[:200]}))
+            continue
+        if got.shape != P.shape:
+            found.append(("bad-output", angle, {"shape": list(got.shape)}))
+            continue
+        outs.append(got)
+        used.append(angle)
+    if not outs:
+        return evals, 0, found
+    m = len(outs)
+    G = np.array(outs)
+    extra = np.array([[0.0, 0.0, 0.0], tip.tolist()])
+    B = np.broadcast_to(np.vstack([P, extra]), (m, len(P) + 2, 3))
+    A = np.concatenate([G, np.broadcast_to(extra, (m, 2, 3))], axis=1)
     ib, ic = len(P), len(P) + 1
-    more, _n = rotation_faults(before, after, ib, ic, angle)
-    faults += more
-    # rotation matrix from the images of e1, e2, e3 (first three points)
+    faults, _moved = rotation_faults(B, A, ib, ic, deltas=np.array(used))
+    for kind, (i, d) in faults.items():
+        found.append((kind, used[i], d))
     if np.allclose(P[:3], np.eye(3)):
-        M = got[:3].T
-        det = float(np.linalg.det(M))
-        if abs(det - 1.0) > 1e-6:
-            faults.append(("determinant", {"det": det}))
-        if float(np.max(np.abs(M.T @ M - np.eye(3)))) > 1e-6:
-            faults.append(("not-orthogonal", {}))
-        if float(np.linalg.norm(M @ tip - tip)) > TOL_DIST:
-            faults.append(("axis-not-fixed", {}))
-    # the torsion reading of the rotation: A, origin, tip, D
+        M = np.transpose(G[:, :3, :], (0, 2, 1))  # columns = images of e_k
+        det = np.linalg.det(M)
+        bad = np.nonzero(~(np.abs(det - 1.0) <= 1e-6))[0]
+        if len(bad):
+            found.append(("determinant", used[bad[0]],
+                          {"det": float(det[bad[0]])}))
+        orth = np.abs(np.einsum("mji,mjk->mik", M, M) - np.eye(3))
+        bad = np.nonzero(~(orth.reshape(m, -1).max(axis=1) <= 1e-6))[0]
+        if len(bad):
+            found.append(("not-orthogonal", used[bad[0]], {}))
+        fix = np.linalg.norm(M @ tip - tip, axis=1)
+        bad = np.nonzero(~(fix <= TOL_DIST))[0]
+        if len(bad):
+            found.append(("axis-not-fixed", used[bad[0]], {}))
+    # torsion reading: A0, origin, tip, D -> requested change, measured by
+    # utilities.dihedral (once per point) and independently
     perp = np.cross(tip, [1.0, 0.0, 0.0])
     if np.linalg.norm(perp) < 0.3:
         perp = np.cross(tip, [0.0, 1.0, 0.0])
-    A = perp / np.linalg.norm(perp) - 0.4 * tip
-    done = 0
-    for i in range(len(P)):
-        if done >= n_dihedral:
-            break
-        v = P[i] - (P[i] @ tip) * tip
-        if np.linalg.norm(v) < 0.2:
+    A0 = perp / np.linalg.norm(perp) - 0.4 * tip
+    rad = np.linalg.norm(P - np.outer(P @ tip, tip), axis=1)
+    picks = [i for i in range(len(P)) if rad[i] > 0.2][:n_dihedral]
+    for i in picks:
+        Q0 = np.array([A0, [0.0, 0.0, 0.0], tip, P[i]])
+        start = float(dihedral_batch(Q0[None])[0])
+        Q1 = np.broadcast_to(Q0, (m, 4, 3)).copy()
+        Q1[:, 3] = G[:, i]
+        want = start + np.array(used)
+        d_ref = np.abs(wrap(dihedral_batch(Q1) - want))
+        bad = np.nonzero(~(d_ref <= TOL_ANGLE))[0]
+        if len(bad):
+            found.append(("torsion-change", used[bad[0]],
+                          {"requested": used[bad[0]],
+                           "off_by_deg": float(d_ref[bad[0]])}))
             continue
-        done += 1
-        quad0 = [A.tolist(), [0.0, 0.0, 0.0], tip.tolist(), P[i].tolist()]
-        quad1 = quad0[:3] + [got[i].tolist()]
-        want = build.dihedral(*quad0) + angle
-        d_impl = wrap(util.dihedral(*quad1) - want)
-        d_ref = wrap(build.dihedral(*quad1) - want)
-        if abs(d_ref) > TOL_ANGLE:
-            faults.append(("torsion-change", {"requested": angle,
-                                              "off_by_deg": float(d_ref)}))
-            break
-        if abs(d_impl) > TOL_ANGLE:
-            faults.append(("torsion-change(utilities.dihedral-only)",
-                           {"requested": angle, "off_by_deg": float(d_impl)}))
-            break
-    return faults
+        for j in range(m):
+            val = float(util.dihedral(A0.tolist(), [0.0, 0.0, 0.0],
+                                      tip.tolist(), G[j, i].tolist()))
+            if not abs(wrap(val - want[j])) <= TOL_ANGLE:
+                found.append(("torsion-change(utilities.dihedral-only)",
+                              used[j], {"requested": used[j],
+                                        "utilities.dihedral": val,
+                                        "expected": float(wrap(want[j]))}))
+                break
+    bad_angles = {a for _k, a, _d in found}
+    return evals, len([a for a in used if a not in bad_angles]), found
 
 
 def run_qchi(case):
@@ -1086,31 +1215,31 @@ def run_qchi(case):
     seen = set()
     n_ok = 0
 
-    def report(kind, detail, mini):
-        sig = f"C15/qchichange/{kind}"
-        if sig in seen:
-            return
-        seen.add(sig)
-        out["violations"].append({"sig": sig, "detail": detail, "case": mini})
+    def report(found, detail, mini_fn):
+        for kind, angle, d in found:
+            sig = f"C15/qchichange/{kind}"
+            if sig in seen:
+                continue
+            seen.add(sig)
+            out["violations"].append({
+                "sig": sig, "detail": dict(d, angle=angle, **detail),
+                "case": mini_fn(angle)})
 
     if case["mode"] == "qchi":
         pts = _qchi_points()
         for scale in case.get("scales", QCHI_SCALES):
             axis = [c * scale for c in case["axis"]]
             out["nontrivial"].append(f"qchi:axis={case['axis']}:x{scale:g}")
-            for angle in case.get("angles", QCHI_ANGLES):
-                out["evals"] += 1
-                try:
-                    faults = _qchi_check(quatfit.qchichange, axis, pts, angle,
-                                         util, 2)
-                except Exception as exc:  # noqa: BLE001
-                    faults = [(f"raised:{type(exc).__name__}",
-                               {"error": str(exc)[:200]})]
-                if not faults:
-                    n_ok += 1
-                for kind, detail in faults:
-                    report(kind, dict(detail, axis=axis, angle=angle),
-                           dict(case, scales=[scale], angles=[angle]))
+            angles = case.get("angles", QCHI_ANGLES if scale == 1.0
+                              else QCHI_ANGLES_SCALED)
+            evals, ok, found = _qchi_block(quatfit, util, axis, pts, angles,
+                                           1)
+            out["evals"] += evals
+            n_ok += ok
+            report(found, {"axis": axis},
+                   lambda a, scale=scale: {"mode": "qchi",
+                                           "axis": case["axis"],
+                                           "scales": [scale], "angles": [a]})
     else:  # template bond axes
         res = domain()[case["res"]]
         names = [n for n in res.atoms]
@@ -1119,25 +1248,22 @@ def run_qchi(case):
                  if b in res.atoms]
         if "pair" in case:
             pairs = [tuple(case["pair"])]
+        step = int(case.get("lattice", 15))
+        angles = case.get("angles",
+                          [a for a in LATT5 if int(a) % step == 0])
         for a, b in pairs:
             o = X[names.index(a)]
             axis = (X[names.index(b)] - o).tolist()
             pts = (X - o).tolist()
             out["nontrivial"].append(f"qchi:{case['res']}:{a}-{b}")
-            for angle in case.get("angles", LATT5):
-                out["evals"] += 1
-                try:
-                    faults = _qchi_check(quatfit.qchichange, axis, pts, angle,
-                                         util, 1)
-                except Exception as exc:  # noqa: BLE001
-                    faults = [(f"raised:{type(exc).__name__}",
-                               {"error": str(exc)[:200]})]
-                if not faults:
-                    n_ok += 1
-                for kind, detail in faults:
-                    report(kind, dict(detail, template=case["res"],
-                                      axis_bond=[a, b], angle=angle),
-                           dict(case, pair=[a, b], angles=[angle]))
+            evals, ok, found = _qchi_block(quatfit, util, axis, pts, angles,
+                                           0)
+            out["evals"] += evals
+            n_ok += ok
+            report(found, {"template": case["res"], "axis_bond": [a, b]},
+                   lambda ang, a=a, b=b: {"mode": "qchi-bond",
+                                          "res": case["res"],
+                                          "pair": [a, b], "angles": [ang]})
     out["events"][f"{case['mode']}:ok"] = n_ok
     return out
 
@@ -1165,60 +1291,107 @@ def run_case(case):
     raise ValueError(mode)
 
 
-def _group(tuples, **kw):
-    """One case per (template, atom) owning at least one distinct tuple."""
-    by = OrderedDict()
-    for rn, an, refs, n_alias in tuples.values():
-        c = by.setdefault((rn, an), dict(mode="fit", res=rn, atom=an,
-                                         refsets=[], aliases=0, **kw))
-        c["refsets"].append(refs)
-        c["aliases"] += n_alias
-    return list(by.values())
-
-
 def enumerate_cases(tier, seed):
     thorough = tier == "thorough"
     cases = []
+    _aa, _na, _patches, canonical = T.load()
     # -- qchichange directly (cheapest, simplest first)
     for ax in AXES26:
         cases.append({"mode": "qchi", "axis": ax})
-    _aa, _na, _patches, canonical = T.load()
-    bond_templates = [n for n in list(_aa) + list(_na)]
-    if thorough:
-        bond_templates = [n for n in canonical]
-    for rn in bond_templates:
-        cases.append({"mode": "qchi-bond", "res": rn})
-    # -- fits
-    base, extra = fit_tuples(deep=thorough)
+    for rn in (list(canonical) if thorough else list(_aa) + list(_na)):
+        cases.append({"mode": "qchi-bond", "res": rn,
+                      "lattice": 5 if thorough else 15})
+    # -- fits: one case per (class, template, atom) owning distinct tuples
     trans = TRANSLATIONS + ([TRANSLATION_PDBMAX] if thorough else [])
-    fit_cases = _group(base, step=5 if thorough else 15, trans=trans)
-    fit_cases += _group(extra, step=15, trans=trans)
-    cases += fit_cases
+    plan_of = ({"A": "full5", "B": "full15", "C": "prod30", "D": "lite30",
+                "E": "lite30"} if thorough else
+               {"A": "full15", "B": "lite60", "C": "lite60"})
+    grouped = OrderedDict()
+    for cls, rn, an, refs, n_alias in fit_tuples(thorough).values():
+        c = grouped.setdefault((cls, rn, an), {
+            "mode": "fit", "res": rn, "atom": an, "class": cls,
+            "plan": plan_of[cls], "refsets": [], "aliases": 0,
+            "trans": trans})
+        c["refsets"].append(refs)
+        c["aliases"] += n_alias
+    cases += sorted(grouped.values(), key=lambda c: c["class"])
     by_res = OrderedDict()
     for rn, an, refs, n_alias in tetra_tuples().values():
         c = by_res.setdefault(rn, {"mode": "fit2", "res": rn, "tuples": [],
-                                   "aliases": 0, "step": 15, "trans": trans})
+                                   "aliases": 0,
+                                   "step": 15 if thorough else 30,
+                                   "trans": trans})
         c["tuples"].append([an, refs])
         c["aliases"] += n_alias
     cases += list(by_res.values())
     # -- torsions
     extra_pose = 1 + seed % (len(POSES) - 1)
-    for x in TORSION_RESIDUES:
-        tmpl = canonical[x]
-        if thorough:
-            combos = [(pos, pose, 5 if pose == 0 else 30)
-                      for pos in ("mid", "n", "c") for pose in (0, 1, 2, 3)]
-        else:
-            combos = [("mid", 0, 15), ("n", 0, 60), ("c", 0, 60),
-                      ("mid", extra_pose, 60)]
-        for pos, pose, step in combos:
-            for k, dh in enumerate(tmpl.dihedrals):
+    if thorough:
+        combos = ([("mid", 0, 5), ("n", 0, 30), ("c", 0, 30)]
+                  + [("mid", pose, 30) for pose in (1, 2, 3)]
+                  + [(pos, pose, 180) for pos in ("n", "c")
+                     for pose in (1, 2, 3)])
+        tet = [(pos, pose, 5 if pose == 0 else 15)
+               for pos in ("mid", "n", "c") for pose in (0, 1, 2, 3)]
+    else:
+        combos = [("mid", 0, 30), ("n", 0, 180), ("c", 0, 180),
+                  ("mid", extra_pose, 180)]
+        tet = [("mid", 0, 15), ("n", 0, 15), ("c", 0, 15),
+               ("mid", extra_pose, 15)]
+    for pos, pose, step in combos:
+        for x in TORSION_RESIDUES:
+            for k, dh in enumerate(canonical[x].dihedrals):
                 cases.append({"mode": "torsion", "x": x, "pos": pos,
                               "pose": pose, "k": k, "dihedral": dh,
                               "start_step": step})
-        tet = ([(pos, pose) for pos in ("mid", "n", "c")
-                for pose in (0, 1, 2, 3)] if thorough else
-               [("mid", 0), ("n", 0), ("c", 0), ("mid", extra_pose)])
-        for pos, pose in tet:
-            cases.append({"mode": "tetra", "x": x, "pos": pos, "pose": pose})
-    return engine.rotate(cases, seed) if seed else cases
+    for pos, pose, lattice in tet:
+        for x in TORSION_RESIDUES:
+            cases.append({"mode": "tetra", "x": x, "pos": pos, "pose": pose,
+                          "lattice": lattice})
+    return _interleave(engine.rotate(cases, seed) if seed else cases)
+
+
+def _cost(case):
+    """Rough relative cost (number of real-code calls, weighted) used only to
+    spread the work evenly over the pool's chunks."""
+    mode = case["mode"]
+    if mode == "fit":
+        plan = PLANS[case["plan"]]
+        n_rot = 24 + 13 * (360 // plan["step"] - 1)
+        n_t = len(case["trans"]) if plan["product"] else 1
+        per = n_rot * n_t
+        for key in ("probe", "moved"):
+            per += {"all": n_rot, "sub30": 155, "cube": 24, "none": 0}[
+                plan[key]]
+        per += 262 if plan["rounded"] else 0
+        return sum(per * (0.7 + 0.1 * len(r)) for r in case["refsets"])
+    if mode == "fit2":
+        return 0.6 * len(case["tuples"]) * len(case["trans"]) * (
+            24 + 13 * (360 // case["step"] - 1))
+    if mode == "torsion":
+        starts = {5: 36, 15: 24, 30: 12, 180: 2}[case["start_step"]]
+        return 4.0 * (starts * 143 + 98)
+    if mode == "tetra":
+        return 2.5 * 30 * (84 if case["lattice"] == 5 else 30)
+    if mode == "qchi":
+        return 2000.0
+    return 20.0 * (72 if case.get("lattice") == 5 else 24)
+
+
+def _interleave(cases):
+    """Deterministic permutation: the engine hands out consecutive chunks, so
+    deal the cases (most expensive first) round-robin over the chunks.  All
+    cases always run (no time cap), the order carries no meaning."""
+    n = len(cases)
+    size = max(1, min(32, n // (engine.NPROC * 8) or 1))
+    n_chunks = -(-n // size)
+    order = sorted(range(n), key=lambda i: (-_cost(cases[i]), i))
+    chunks = [[] for _ in range(n_chunks)]
+    for rank, i in enumerate(order):
+        chunks[rank % n_chunks].append(cases[i])
+    # chunks must be contiguous runs of exactly `size` cases (last shorter)
+    full = [c for c in chunks if len(c) == size]
+    rest = [c for c in chunks if len(c) != size]
+    out = [c for ch in full for c in ch]
+    tail = [c for ch in rest for c in ch]
+    return out + tail
